@@ -1,6 +1,6 @@
 
 (* ---- C02: move_dist_t3 and rate_t3 as they are in the source now = Model/EbbCalc.v ---- *)
 Lemma move_dist_t3_eq : forall time rate accel jerk accum, t_move_dist_t3 time rate accel jerk accum = move_dist_t3 time rate accel jerk accum.
-Proof. intros. destruct accum; timeout 30 reflexivity. Qed.
+Proof. intros. destruct accum; kernel_eq_zq. Qed.
 Lemma rate_t3_eq : forall time rate accel jerk, t_rate_t3 time rate accel jerk = rate_t3 time rate accel jerk.
-Proof. timeout 30 reflexivity. Qed.
+Proof. kernel_eq_zq. Qed.
